@@ -2,7 +2,7 @@
 """Apply each seeded change to /repo (git apply), run the static checks, undo it (git checkout -- .).
 
 usage: sweep_seeds.py [--root DIR] [--all-props] [ids...]
-DIR contains <id>/<k>/patch.diff (default /verif/seeded).  Evidence of these runs goes to a scratch directory
+DIR contains <Cxx>-<k>/patch.diff (default /verif/seeded).  Evidence of these runs goes to a scratch directory
 (VERIF_OUT) so that the committed evidence is never overwritten by a run against a modified tree."""
 import glob, json, os, re, subprocess, sys, tempfile
 
@@ -27,11 +27,11 @@ def main():
     out = tempfile.mkdtemp(prefix="verif-sweep-")
     env = dict(os.environ, VERIF_OUT=out)
     rows = []
-    for d in sorted(glob.glob(os.path.join(root, "C*", "*"))):
+    for d in sorted(glob.glob(os.path.join(root, "C*"))):
         if not os.path.exists(os.path.join(d, "patch.diff")):
             continue
-        pid = os.path.basename(os.path.dirname(d)); k = os.path.basename(d)
-        if args and pid not in args and f"{pid}/{k}" not in args:
+        pid, k = os.path.basename(d).split("-", 1)
+        if args and pid not in args and f"{pid}-{k}" not in args:
             continue
         r = sh(f"git -C /repo apply {d}/patch.diff")
         if r.returncode:
@@ -50,7 +50,7 @@ def main():
         own = res.get(pid)
         others = {p: v for p, v in res.items() if p != pid and v[0] not in (0, "unclaimed")}
         rows.append((pid, k, own, others))
-        print(f"{pid}/{k}: own={own} others={others}", flush=True)
+        print(f"{pid}-{k}: own={own} others={others}", flush=True)
     assert not sh("git -C /repo status --short").stdout.strip()
     json.dump(rows, open(os.path.join(out, "sweep.json"), "w"), indent=1, default=str)
     print("results:", os.path.join(out, "sweep.json"))
